@@ -23,6 +23,64 @@ pub static F_C16: AtomicBool = AtomicBool::new(false);
 pub static F_QUIET: AtomicBool = AtomicBool::new(false);
 pub static STEP: AtomicU32 = AtomicU32::new(0);
 
+// Soft oracle classes. A soft oracle is one whose violation does not endanger the
+// rest of the execution (a leak, a wrong count, a wrong table entry). Each profile
+// evaluates only the soft oracles that can be attributed to its own property, so that
+// another property's (earlier, milder) symptom never ends the execution before the
+// profile's own oracle has had the chance to see the consequence. Safety oracles
+// (premature / double destruction, memory faults, resurrecting upgrades, results that
+// desynchronise the model) are always evaluated: after them nothing can be trusted.
+pub const S_COLLECT: u32 = 1;
+pub const S_LEAK: u32 = 2;
+pub const S_WEAK: u32 = 4;
+pub const S_COUNT: u32 = 8;
+pub const S_LEDGER: u32 = 16;
+pub const S_COST: u32 = 32;
+pub const S_PANIC: u32 = 64;
+pub const S_ALL: u32 = 127;
+pub static SOFT_MASK: AtomicU32 = AtomicU32::new(S_ALL);
+
+pub fn soft_class(kind: &str) -> u32 {
+    match kind {
+        "not-collected" => S_COLLECT,
+        "leak" | "not-released" | "released-early" => S_LEAK,
+        "upgrade-wrong" | "dead-weak-counts" | "weak-counts" => S_WEAK,
+        "count-mismatch" | "identity" | "api-observation" => S_COUNT,
+        "ledger-mismatch" | "stale-record" | "asymmetric-record" => S_LEDGER,
+        "traced-unlinked" | "alloc-unlinked" => S_COST,
+        "panic-not-propagated" => S_PANIC,
+        _ => 0,
+    }
+}
+
+#[inline]
+pub fn soft_enabled(class: u32) -> bool {
+    SOFT_MASK.load(Relaxed) & class != 0
+}
+
+/// Report a violation of a soft oracle, if the running profile evaluates it.
+pub fn soft(kind: &str, cause: &str, msg: &str) {
+    let c = soft_class(kind);
+    if c == 0 || soft_enabled(c) {
+        violation(kind, cause, msg);
+    }
+}
+
+pub fn soft_mask_for(profile: &str) -> u32 {
+    match profile {
+        "C03" => S_COLLECT,
+        "C04" => S_LEAK,
+        "C05" => S_WEAK,
+        "C06" => S_COUNT,
+        "C08" => S_LEDGER,
+        "C10" => S_ALL,
+        "C11" => S_WEAK | S_COUNT | S_PANIC,
+        "C12" => S_LEAK | S_COUNT | S_LEDGER | S_COLLECT,
+        "C14" => S_COST,
+        _ => 0,
+    }
+}
+
 pub fn reset_flags() {
     for f in [&F_SCRIPT, &F_PANIC, &F_CONSUMING, &F_ELIDED, &F_HARNESS_DEREF, &F_STALE_DESTRUCTION] {
         f.store(false, Relaxed);
@@ -113,7 +171,12 @@ pub fn attribute(kind: &str, out: &mut [&'static str; 6]) -> usize {
         return n;
     }
     match kind {
-        "not-collected" => push("C03", &mut n),
+        "not-collected" => {
+            push("C03", &mut n);
+            if consuming {
+                push("C12", &mut n);
+            }
+        }
         "leak" | "not-released" | "released-early" => {
             push("C04", &mut n);
             if consuming {
@@ -126,7 +189,7 @@ pub fn attribute(kind: &str, out: &mut [&'static str; 6]) -> usize {
                 push("C11", &mut n);
             }
         }
-        "count-mismatch" | "identity" | "api-result" => {
+        "count-mismatch" | "identity" | "api-result" | "api-observation" => {
             push("C06", &mut n);
             if consuming {
                 push("C12", &mut n);
